@@ -148,6 +148,9 @@ type VM struct {
 	F    *File
 	Sec  Section
 	Hits map[int]bool // executed instruction lines (coverage), optional
+	// UserTargets: labels the author wrote as targets of hand-written
+	// goto_if_set/goto_if_unset commands; like a plain goto they may leave the script.
+	UserTargets map[string]bool
 }
 
 type condReg struct {
@@ -222,7 +225,7 @@ func (vm *VM) Run(st ref.State) (tr *ref.Trace) {
 		jump := func(lbl string, generated bool) bool {
 			t, ok := target(lbl)
 			if !ok {
-				if generated {
+				if generated && !vm.UserTargets[lbl] {
 					if len(f.Labels[lbl]) == 0 {
 						problem("conditional jump/case at line %d targets undefined label %q", pc+1, lbl)
 					} else {
